@@ -136,6 +136,15 @@ def cm3_spec(draw, coded=None):
     if c:
         s["pattern"] = draw(st.sampled_from(["rows_repeat", "runs", "constant", "random", "single_odd", "nibble_checker", "low_values", "all_00"]))
         s["p_raw"] = draw(st.sampled_from([0.0, 0.1, 0.3]))
+        policy = draw(st.sampled_from(["mixed", "mixed", "left_always", "up_always", "literal_heavy"]))
+        if policy == "left_always":
+            # an encoder that copies from the left whenever it can: solid lines get an empty second mask (control byte 0)
+            s["p_copy"], s["prefer"] = 1.0, "left"
+            s["pattern"] = draw(st.sampled_from(["constant", "all_00", "runs", "rows_repeat"]))
+        elif policy == "up_always":
+            s["p_copy"], s["prefer"] = 1.0, "up"
+        elif policy == "literal_heavy":
+            s["p_copy"] = 0.5
     return s
 
 
